@@ -239,8 +239,33 @@ Session make(const std::string& kind, long idx)
         static const char* BIG[] = {"R6R/3Q4/1Q4Q1/4Q3/2Q4Q/Q4Q2/pp1Q4/kBNN1KB1 w - - 0 1", "3Q4/1Q4Q1/4Q3/2Q4R/Q4Q2/3Q4/1Q4Rp/1K1BBNNk w - - 0 1",
                                     "k7/8/1r1q1r1q/b1q1n1q1/1Q1N1Q1B/Q1R1Q1R1/8/7K w - - 0 1", "QQQQQQQQ/Q7/8/8/8/8/7q/K6k w - - 0 1"};
         Board b = idx % 5 < 4 ? Board::fen(BIG[idx % 5]) : gen::synth(*RNG, gen::T_MANY);
+        if (idx % 5 == 4)
+        {
+            // the piece lists have ten slots per kind: make sure a position with exactly TEN of a kind (and one that gets its
+            // tenth by promotion) is really among the sessions, whatever the seed
+            for (int tries = 0; tries < 3000; ++tries)
+            {
+                Board t = gen::synth(*RNG, gen::T_MANY);
+                bool ten = false, nine_plus_pawn = false;
+                for (int c = 0; c < 2; ++c)
+                    for (int k = orc::KNIGHT; k <= orc::QUEEN; ++k)
+                    {
+                        int n = t.count(orc::make_pc(c, k));
+                        if (n == 10) ten = true;
+                        if (n == 9 && t.count(orc::make_pc(c, orc::PAWN)) == 1) nine_plus_pawn = true;
+                    }
+                if (t.has_legal() && ((idx % 10 == 4) ? ten : (ten || nine_plus_pawn)))
+                {
+                    b = t;
+                    break;
+                }
+            }
+        }
         if (!b.has_legal()) b = Board::fen(BIG[0]);
         s.tag = "manymoves:" + std::to_string(b.legal().size());
+        for (int c = 0; c < 2; ++c)
+            for (int k = orc::KNIGHT; k <= orc::QUEEN; ++k)
+                if (b.count(orc::make_pc(c, k)) == 10) s.tag = "manymoves:ten-of-a-kind:" + std::to_string(b.legal().size());
         s.send("position fen " + b.fen());
         s.board(b);
         s.perft(1 + int(idx % 2), b);
